@@ -132,6 +132,7 @@ def stage_which(ctx, stats):
     root = tempfile.mkdtemp(prefix='verif_which_')
     saved_path = os.environ.get('PATH')
     saved_def = os.defpath
+    saved_cwd = os.getcwd()
     try:
         for it in range(n):
             base = os.path.join(root, 'L%d' % it)
@@ -150,10 +151,20 @@ def stage_which(ctx, stats):
                 groups[g] = (kinds, dirs)
             explicit = rng.random() < 0.25
             ekind = rng.choice(KINDS)
+            cwd_for_call = None
             if explicit:
                 ed = os.path.join(base, 'expl'); os.mkdir(ed)
                 make_entry(ed, 'prog', ekind, store)
-                fname = os.path.join(ed, 'prog')
+                # an explicit path is any name with a directory part: absolute, relative to the working directory, or ./name
+                how = rng.choice(['abs', 'abs', 'rel', 'dot', 'dotdot'])
+                if how == 'abs':
+                    fname = os.path.join(ed, 'prog')
+                elif how == 'rel':
+                    fname, cwd_for_call = 'expl/prog', base
+                elif how == 'dot':
+                    fname, cwd_for_call = './prog', ed
+                else:
+                    fname, cwd_for_call = '../expl/prog', store
             else:
                 fname = 'prog'
             envmode = rng.choice(['os', 'unset', 'emptydict', 'empty', 'set'])
@@ -180,7 +191,12 @@ def stage_which(ctx, stats):
                 env = {'PATH': ':'.join(groups['env'][1])}
                 if not groups['env'][1]:
                     envmode = 'empty'
-            got = U.which(fname, env=env)
+            if cwd_for_call:
+                os.chdir(cwd_for_call)
+            try:
+                got = U.which(fname, env=env)
+            finally:
+                os.chdir(saved_cwd)
             # canonical id of the answer
             if got is None:
                 r = 'none'
@@ -190,10 +206,10 @@ def stage_which(ctx, stats):
                 r = '?' + got
                 for g, off in (('env', 100), ('os', 200), ('def', 300)):
                     for j, d in enumerate(groups[g][1]):
-                        if got == os.path.join(d, 'prog'):
+                        if got == os.path.join(d, fname) and os.path.normpath(got) == os.path.join(d, 'prog'):
                             r = str(off + j)
             bits = lambda g: ','.join('1' if is_exec_kind(k) else '0' for k in groups[g][0]) or '-'
-            lines.append('WH %d %d %s %s %s %s %s' % (1 if explicit else 0, 1 if (explicit and is_exec_kind(ekind)) else 0,
+            lines.append('WH %d %d %s %s %s %s %s' % ((2 if fname == './prog' else 1) if explicit else 0, 1 if (explicit and is_exec_kind(ekind)) else 0,
                                                        'unset' if envmode == 'emptydict' else envmode, osmode, bits('env'), bits('os'), bits('def')))
             reals.append(r)
             descs.append(dict(explicit=explicit and ekind, env=envmode, os=osmode, layout={g: groups[g][0] for g in groups}))
@@ -234,6 +250,16 @@ def stage_probe(ctx, stats):
     n = 24 if ctx.quick() else 200
     tmp = tempfile.mkdtemp(prefix='verif_probe_')
     sigs = set()
+    # the same interpreter reached through paths that a command line would have to quote; next to each a decoy with the name the path would
+    # be cut down to if the list form were split like a command line
+    odd_paths = []
+    for sub, name in (('my tools', 'python x'), ("bob's", 'py"thon'), ('back\\slash', 'python')):
+        os.makedirs(os.path.join(tmp, sub))
+        odd = os.path.join(tmp, sub, name)
+        os.symlink(os.path.realpath(common.PY), odd)
+        odd_paths.append(odd)
+    decoy = os.path.join(tmp, 'my')
+    open(decoy, 'w').write('#!/bin/sh\necho DECOY\n'); os.chmod(decoy, 0o755)
     try:
         for it in range(n):
             cwd = rng.choice([None, tmp, '/'])
@@ -257,7 +283,9 @@ def stage_probe(ctx, stats):
                         ['bs'] + (['sq'] if "'" not in a else []) + (['dq'] if '"' not in a else []))) for a in args)
                     p = pexpect.spawn(cmd, cwd=cwd, env=env, dimensions=dims, echo=echo, ignore_sighup=ign, encoding=enc_, timeout=20, **kw_pre)
                 elif mode == 'args':
-                    p = pexpect.spawn(common.PY, [PROBE] + args, cwd=cwd, env=env, dimensions=dims, echo=echo, ignore_sighup=ign,
+                    # the list form takes the program path and every argument verbatim
+                    prog = common.PY if rng.random() < 0.5 else rng.choice(odd_paths)
+                    p = pexpect.spawn(prog, [PROBE] + args, cwd=cwd, env=env, dimensions=dims, echo=echo, ignore_sighup=ign,
                                       encoding=enc_, timeout=20, **kw_pre)
                 else:
                     p = popen_spawn.PopenSpawn([common.PY, PROBE] + args, cwd=cwd, env=env, encoding=enc_, timeout=20)
@@ -295,7 +323,7 @@ def stage_probe(ctx, stats):
                         problems.append('preexec_fn did not run in the child (umask %r)' % (info.get('umask'),))
             if problems:
                 common.report(ctx, 'launch/' + mode + '/' + problems[0].split(' ')[0], '; '.join(problems),
-                              dict(mode=mode, args=args, cwd=cwd, env=envvals if env else None, dimensions=dims, echo=echo,
+                              dict(mode=mode, args=args, program=(prog if mode == 'args' else None), cwd=cwd, env=envvals if env else None, dimensions=dims, echo=echo,
                                    ignore_sighup=ign, encoding=enc_, report=info))
                 break
         # arguments the spawn's encoding cannot express: the child gets exactly the requested argv or the launch is refused
